@@ -233,6 +233,34 @@ func init() {
 		vc.assumeIf(cx.st.pc, fmt.Sprintf("(= (= %s nil_iface) (forall ((j Int)) (! (=> (and (<= 0 j) (< j (s_len %s))) (= (select %s (sidx %s j)) nil_iface)) :pattern ((sidx %s j)))))", r, s, box, s, s))
 		return []Term{r}
 	}
+	stubs["k8s.io/apimachinery/pkg/util/intstr.GetScaledValueFromIntOrPercent"] = func(cx *callCtx) []Term {
+		// Int: the value itself. String "N%": N% of total, rounded as asked. Anything else: error.
+		e := cx.fr.eng
+		vc := e.vc
+		vc.decl("fn:pct_ok", "(declare-fun pct_ok (Str) Bool)")
+		vc.decl("fn:pct_val", "(declare-fun pct_val (Str) Int)")
+		it := cx.argTs[0].Underlying().(*types.Pointer).Elem()
+		ist := it.Underlying().(*types.Struct)
+		fi := func(n string) int {
+			for i := 0; i < ist.NumFields(); i++ {
+				if ist.Field(i).Name() == n {
+					return i
+				}
+			}
+			return -1
+		}
+		typ := e.loadField(cx.st, cx.args[0], it, fi("Type"))
+		iv := e.loadField(cx.st, cx.args[0], it, fi("IntVal"))
+		sv := e.loadField(cx.st, cx.args[0], it, fi("StrVal"))
+		total, up := cx.args[1], cx.args[2]
+		errc := vc.fresh("scaleerr", "Iface")
+		vc.assume(fmt.Sprintf("(not (= %s nil_iface))", errc))
+		okc := fmt.Sprintf("(or (= %s 0) (pct_ok %s))", typ, sv)
+		prod := fmt.Sprintf("(* (pct_val %s) %s)", sv, total)
+		val := fmt.Sprintf("(ite (= %s 0) %s (ite %s (div (+ %s 99) 100) (div %s 100)))", typ, iv, up, prod, prod)
+		return []Term{ite(okc, val, "0"), ite(okc, "nil_iface", errc)}
+	}
+	stubs["github.com/samber/lo.Must"] = func(cx *callCtx) []Term { return []Term{cx.args[0]} }
 	stubs["math/rand.Intn"] = func(cx *callCtx) []Term {
 		vc := cx.fr.eng.vc
 		cx.fr.safety(cx.st, "call.rand.Intn", fmt.Sprintf("(> %s 0)", cx.args[0]), cx.instr, "rand.Intn argument must be positive")
@@ -263,6 +291,18 @@ func lookupStub(name string) stubFn {
 	if s, ok := stubs[name]; ok {
 		return s
 	}
+	if isStatusConditionsAccessor(name) {
+		return func(cx *callCtx) []Term {
+			e := cx.fr.eng
+			vc := e.vc
+			r := vc.freshAlways("condset", vc.sortOf(cx.sig.Results().At(0).Type()))
+			if e.condSets == nil {
+				e.condSets = map[string]condSetInfo{}
+			}
+			e.condSets[r] = condSetInfo{obj: cx.args[0], typ: cx.argTs[0]}
+			return []Term{r}
+		}
+	}
 	return nil
 }
 
@@ -275,7 +315,8 @@ var purePrefixes = []string{
 	"sigs.k8s.io/karpenter/pkg/operator/injection.", "sigs.k8s.io/karpenter/pkg/operator/options.", "context.", "(context.Context).",
 	"k8s.io/apimachinery/pkg/types.NamespacedName", "(k8s.io/apimachinery/pkg/types.NamespacedName)",
 	"sigs.k8s.io/controller-runtime/pkg/client.ObjectKeyFromObject", "k8s.io/klog/v2.KObj", "k8s.io/klog/v2.KRef",
-	"(error).Error", "(*sigs.k8s.io/karpenter/pkg/events.", "(sigs.k8s.io/karpenter/pkg/events.Recorder)", "sigs.k8s.io/karpenter/pkg/events.",
+	"(error).Error", "github.com/samber/lo.",
+	"(sigs.k8s.io/karpenter/pkg/cloudprovider.CloudProvider).RepairPolicies", "(sigs.k8s.io/karpenter/pkg/cloudprovider.CloudProvider).GetSupportedNodeClasses", "(sigs.k8s.io/karpenter/pkg/cloudprovider.CloudProvider).Name", "(*sigs.k8s.io/karpenter/pkg/events.", "(sigs.k8s.io/karpenter/pkg/events.Recorder)", "sigs.k8s.io/karpenter/pkg/events.",
 }
 
 // isPureName: calls that neither read nor write the modelled heap in a way that matters
